@@ -2,6 +2,7 @@
 from .facts import (path_ends, loc, vt_walk, vt_str, hir_walk, hir_find, strip_generics)
 from .sib import canon, Subst, show
 from . import common as K
+from . import rel as Rl
 
 LEVEL = ("Static necessary conditions of reversibility, decided on the resolved program (HIR/MIR): fair and fresh "
          "direction draw per doubling, mirror symmetry of every direction-dependent construct, U-turn pair set closed "
@@ -421,16 +422,141 @@ def cond_fields(b, discr):
     return out
 
 
+def extend_gate(F, R):
+    """What decides inside extend() whether the U-turn criterion is evaluated: ('options', arg) for `options.check_turning`,
+    ('flag', arg) for a boolean parameter; the recursive call must hand the same gate down unchanged."""
+    ext = F.inherent_methods("NutsTree", "extend")
+    if not ext:
+        return None, None
+    b = ext[0]
+    gates = set()
+    for bb, t in b.calls_to(lambda c: path_ends(c["path"], "Hamiltonian::is_turning")):
+        for (o, l, r, _s) in Rl.edge_relations(b, bb):
+            if r is None and o == "True":
+                if l[0] == "field" and l[2] == "check_turning":
+                    root = l[1]
+                    while root[0] in ("deref", "ref"):
+                        root = root[1]
+                    if root[0] == "arg":
+                        gates.add(("options", root[1]))
+                elif l[0] == "arg" and b.local_ty(l[1]) == "bool":
+                    gates.add(("flag", l[1]))
+    site = "%s @%s" % (b.path, b.loc())
+    if len(gates) != 1:
+        if gates:
+            R.bad("C01-R7", b.path + ":gate", site, "the U-turn criterion in extend() is gated by several conditions: %s" % sorted(gates))
+        return None, None
+    kind, idx = next(iter(gates))
+    for bb, t in b.calls_to(lambda c: path_ends(c["path"], "NutsTree::extend")):
+        a = t["args"][idx - 1] if idx - 1 < len(t["args"]) else None
+        v = b.value(a) if a is not None else None
+        while v is not None and v[0] in ("ref", "deref"):
+            v = v[1]
+        if v is not None and v[0] == "arg" and v[1] == idx:
+            R.ok("C01-R7", b.path + ":gate-recursive", "%s @%s" % (b.path, loc(t["span"])), "sub-trees are built under the same U-turn gate as their parent")
+        else:
+            R.bad("C01-R7", b.path + ":gate-recursive", "%s @%s" % (b.path, loc(t["span"])), "the recursive extend() receives %s as U-turn gate, not the caller's" % (vt_str(v) if v else None))
+    return kind, idx
+
+
+def gate_deps(b, o, ctx_bb):
+    """Names a boolean operand depends on. Leaves: named struct fields (a tree's own fields are not traced into the tree's history),
+    parameters, named non-boolean variables (`mindepth`), callee names. Boolean variables and temporaries are expanded through all their
+    definitions and through the conditions that choose between those definitions (`a && b` is control flow in MIR)."""
+    ctx = {a for (a, _s) in b.control_deps_trans(ctx_bb)}
+    seen = set()
+    out = set()
+
+    def operand(x):
+        if x["k"] in ("copy", "move"):
+            place(x["pl"])
+
+    def place(pl):
+        named = [e["n"] for e in pl["p"] if isinstance(e, dict) and "f" in e and e.get("n") and not str(e["n"]).isdigit()]
+        for e in pl["p"]:
+            if isinstance(e, dict) and "idx" in e:
+                local(e["idx"])
+        if named:
+            out.add(named[-1])
+            return
+        local(pl["l"])
+
+    def rvalue(rv):
+        k = rv["k"]
+        if k in ("use", "cast", "repeat"):
+            operand(rv["op"])
+        elif k == "bin":
+            operand(rv["a"])
+            operand(rv["b"])
+        elif k == "un":
+            operand(rv["a"])
+        elif k in ("ref", "rawptr", "discr"):
+            place(rv["pl"])
+        elif k == "agg":
+            for x in rv["ops"]:
+                operand(x)
+
+    def local(l):
+        if l in seen:
+            return
+        seen.add(l)
+        name = b.local_name(l)
+        if b.is_arg(l):
+            out.add(str(name or "arg%d" % l))
+            return
+        if name and b.local_ty(l) != "bool":
+            out.add(str(name))
+            return
+        ds = b.defs().get(l, [])
+        if not ds:
+            out.add(str(name or "_%d" % l))
+        for d in ds:
+            if d[0] == "stmt":
+                if d[3]["k"] == "assign":
+                    rvalue(d[3]["rv"])
+            else:
+                out.add(str(d[3]["callee"].get("name")))
+                for a in d[3]["args"]:
+                    operand(a)
+            for (a, _s) in b.control_deps_trans(d[1]):
+                tt = b.blocks[a]["term"]
+                if a not in ctx and tt["k"] == "switch":
+                    operand(tt["discr"])
+                    if "enum_place" in tt:
+                        place(tt["enum_place"])
+    operand(o)
+    return out
+
+
 def r7(F, R):
     R.rule("C01-R7", "the doubling loop disables U-turn checks (passes the no-check options copy to extend) only as a function of "
                      "`tree.depth < mindepth`: the selection depends on NutsTree.depth and options.mindepth and on nothing else "
                      "(not on maxdepth / extra_doublings)")
+    gate_kind, gate_idx = extend_gate(F, R)
     callers = [b for b in F.bodies.values() if b.kind != "closure" and b.fn_name != "extend" and
                b.calls_to(lambda c: path_ends(c["path"], "NutsTree::extend"))]
     for b in callers:
         loops = b.natural_loops()
         n = 0
         for bb, t in b.calls_to(lambda c: path_ends(c["path"], "NutsTree::extend")):
+            site = "%s @%s" % (b.path, loc(t["span"]))
+            key = "%s:extend-options#%d" % (b.path, n)
+            if gate_kind == "flag":
+                # extend(.., check: bool): the flag itself is the gate of the U-turn criterion
+                n += 1
+                if gate_idx - 1 >= len(t["args"]):
+                    R.bad("C01-R7", key, site, "extend() call without the U-turn flag argument")
+                    continue
+                fo = t["args"][gate_idx - 1]
+                if fo["k"] == "const":
+                    R.ok("C01-R7", key, site, "extend() with a constant U-turn flag (%s)" % fo["const"].get("v"))
+                    continue
+                ctrl = gate_deps(b, fo, bb)
+                if "depth" in ctrl and "mindepth" in ctrl and not ({"maxdepth", "extra_doublings"} & ctrl):
+                    R.ok("C01-R7", key, site, "U-turn flag depends on %s" % sorted(ctrl))
+                else:
+                    R.bad("C01-R7", key, site, "U-turn checks are switched off depending on %s; only `tree.depth < mindepth` is a legal reason" % sorted(ctrl))
+                continue
             oargs = [a for a in t["args"] if a["k"] in ("copy", "move") and path_ends(a["pl"]["ty"].replace("&", "").strip(), "NutsOptions")]
             if len(oargs) != 1:
                 continue
@@ -448,8 +574,6 @@ def r7(F, R):
                         continue
                 break
             defs = b.defs().get(l, [])
-            site = "%s @%s" % (b.path, loc(t["span"]))
-            key = "%s:extend-options#%d" % (b.path, n)
             n += 1
             if len(defs) <= 1:
                 v = b.local_value(l)
@@ -530,5 +654,7 @@ def run(F, R, config="all"):
     r4(F, R)
     r6(F, R)
     r7(F, R)
+    from . import c03
+    c03.snapshot(F, R, "C01-R9")
     R.assume("rand's RngExt::random::<bool>() returns true with probability 1/2")
     R.assume("MIR at -Zmir-opt-level=0 is a faithful control-flow model of the source")
